@@ -128,6 +128,40 @@ def r18_3(ck: Check) -> None:
                     h, nm.split("-")[1], table[h]), td)
 
 
+def r18_7(ck: Check) -> None:
+    """the horizon below which in-state validation is skipped is the recorded one: no entry beyond the recorded checkpoints"""
+    path = os.path.join(REF, "known_hashes.json")
+    ref = {int(k): v for k, v in json.load(open(path)).items()}
+    table = ck.repo.const("skepticoin.cheating.KNOWN_HASHES")
+    mx = ck.repo.const("skepticoin.cheating.MAX_KNOWN_HASH_HEIGHT")
+    m = ck.repo.module("skepticoin.cheating")
+    if not isinstance(table, dict):
+        raise AnalysisError("KNOWN_HASHES does not fold to a dict")
+    extra = sorted(h for h in table if h not in ref)
+    construct = "checkpoint horizon == %d (the last recorded network checkpoint); the table has no other heights" % max(ref)
+    if extra or mx != max(ref):
+        ck.violated("R18.7", construct, "horizon %r, heights not among the recorded checkpoints: %s — every block up to the horizon that is not "
+                    "itself a checkpoint skips reward, overspend and signature validation" % (mx, extra[:5]), m.path)
+    else:
+        ck.ok("R18.7", construct, "full validation applies to every height above %d" % max(ref), m.path)
+    # the literal must not list a height twice (a later duplicate silently replaces the earlier entry)
+    node = m.assign_nodes.get("KNOWN_HASHES")
+    if isinstance(node, ast.Dict):
+        keys = [k.value for k in node.keys if isinstance(k, ast.Constant)]
+        dup = sorted({k for k in keys if keys.count(k) > 1})
+        vals = {}
+        bad = []
+        for k, v in zip(node.keys, node.values):
+            if isinstance(k, ast.Constant) and isinstance(v, ast.Constant):
+                if k.value in vals and vals[k.value] != v.value:
+                    bad.append(k.value)
+                vals[k.value] = v.value
+        if bad:
+            ck.violated("R18.7", "KNOWN_HASHES literal: a height listed twice carries the same id", "heights %s are listed with different ids" % bad, m.path)
+        else:
+            ck.ok("R18.7", "KNOWN_HASHES literal: a height listed twice carries the same id", "%d duplicated height(s)" % len(dup), m.path)
+
+
 def r18_4(ck: Check) -> None:
     s = ck.summ("skepticoin.hash.scrypt", 0)
     require_return(ck, "R18.4", s, Spec(s, ("pw", "salt")), "scrypt_hash(pw, salt, N=32768, r=8, p=1, buflen=32)", "scrypt N=2^15, r=8, p=1, 32 bytes")
@@ -215,6 +249,7 @@ def check(ck: Check) -> None:
     ck.run("R18.1", "checkpoint guard", lambda: r18_1(ck))
     ck.run("R18.2", "guard is on the accepting path of add_block", lambda: r18_2(ck))
     ck.run("R18.3", "checkpoint table has not drifted", lambda: r18_3(ck))
+    ck.run("R18.7", "checkpoint horizon has not moved", lambda: r18_7(ck))
     ck.run("R18.4", "hash parameters", lambda: r18_4(ck))
     ck.run("R18.5", "wire format has not drifted", lambda: r18_5(ck))
     ck.run("R18.6", "genesis constant", lambda: r18_6(ck))
